@@ -113,9 +113,9 @@ pub fn plan_for(prop: &str, tier: &str) -> Plan {
         }
         "C09" => {
             p.scenarios = if q {
-                sc(&[("member-joint", 1), ("member-rm1", 0), ("member-rm1-camp", 0), ("member-joint-xe", 1), ("read-swap-camp", 1), ("member-auto-al", 0), ("member-rm1-2v", 0), ("member-mix-page", 0), ("member-joint-al", 0), ("member-jd", 0), ("member-a1", 0), ("snap-jback", 0), ("xfer-cc-al", 0), ("member-fasync", 0), ("member", 1), ("member-eager", 1), ("member-mix", 0)])
+                sc(&[("member-joint", 1), ("member-rm1", 0), ("member-rm1-camp", 0), ("member-joint-xe", 1), ("read-swap-camp", 1), ("snap-cclag", 0), ("snap-cclag", 1), ("member-auto-al", 0), ("member-rm1-2v", 0), ("member-mix-page", 0), ("member-joint-al", 0), ("member-jd", 0), ("member-a1", 0), ("snap-jback", 0), ("xfer-cc-al", 0), ("member-fasync", 0), ("member", 1), ("member-eager", 1), ("member-mix", 0)])
             } else {
-                sc(&[("member-joint", 1), ("member-rm1", 1), ("member-rm1-camp", 0), ("member-joint-xe", 1), ("read-swap-camp", 1), ("member-auto-al", 0), ("member-rm1-2v", 0), ("member-mix-page", 0), ("member-joint-al", 0), ("member-jd", 0), ("member-a1", 0), ("snap-jback", 0), ("xfer-cc-al", 0), ("member-fasync", 0), ("member-mix", 1), ("member", 1), ("member-rm1-2v", 1), ("member-eager", 1), ("member-joint", 2), ("member", 2), ("member-rm1", 2), ("member", 3), ("member-async", 1), ("member-mix", 2)])
+                sc(&[("member-joint", 1), ("member-rm1", 1), ("member-rm1-camp", 0), ("member-joint-xe", 1), ("read-swap-camp", 1), ("snap-cclag", 0), ("snap-cclag", 1), ("member-auto-al", 0), ("member-rm1-2v", 0), ("member-mix-page", 0), ("member-joint-al", 0), ("member-jd", 0), ("member-a1", 0), ("snap-jback", 0), ("xfer-cc-al", 0), ("member-fasync", 0), ("member-mix", 1), ("member", 1), ("member-rm1-2v", 1), ("member-eager", 1), ("member-joint", 2), ("member", 2), ("member-rm1", 2), ("member", 3), ("member-async", 1), ("member-mix", 2)])
             };
             p.required_stats = vec![Stat::CcAccepted, Stat::CcNeutralised, Stat::ConfApplied, Stat::JointEntered];
             p.explanation = "explicit-state exploration of V1/V2 proposals at leader and follower with apply lag, elections, restarts; proposal filter relation on every accepted conf-change proposal; no election over an unapplied committed change; every node's configuration compared with the reference fold of the applied membership entries".into();
@@ -142,9 +142,9 @@ pub fn plan_for(prop: &str, tier: &str) -> Plan {
         }
         "C15" => {
             p.scenarios = if q {
-                sc(&[("snap", 1), ("snap-joint", 0), ("snap-jback", 0), ("snap-jauto", 0), ("snap-prec", 0), ("snap-prec", 1), ("snap-unr", 0), ("snap-busy", 0), ("snap-busy", 1), ("snap-fig8", 1), ("snap-req", 0), ("snap", 2)])
+                sc(&[("snap", 1), ("snap-joint", 0), ("snap-jback", 0), ("snap-jauto", 0), ("snap-cclag", 0), ("snap-prec", 0), ("snap-prec", 1), ("snap-unr", 0), ("snap-busy", 0), ("snap-busy", 1), ("snap-fig8", 1), ("snap-req", 0), ("snap", 2)])
             } else {
-                sc(&[("snap", 1), ("snap-joint", 0), ("snap-jback", 0), ("snap-jauto", 0), ("snap-prec", 0), ("snap-prec", 1), ("snap-unr", 0), ("snap-busy", 0), ("snap-busy", 1), ("snap-fig8", 1), ("snap-req", 0), ("snap", 2), ("snap-req", 1), ("snap-memq", 1), ("snap-req-memq", 0), ("snap-fig8", 2), ("snap-joint", 1), ("snap", 3), ("snap-joint", 2), ("snap", 4)])
+                sc(&[("snap", 1), ("snap-joint", 0), ("snap-jback", 0), ("snap-jauto", 0), ("snap-cclag", 0), ("snap-prec", 0), ("snap-prec", 1), ("snap-unr", 0), ("snap-busy", 0), ("snap-busy", 1), ("snap-fig8", 1), ("snap-req", 0), ("snap", 2), ("snap-req", 1), ("snap-memq", 1), ("snap-req-memq", 0), ("snap-fig8", 2), ("snap-joint", 1), ("snap", 3), ("snap-joint", 2), ("snap", 4)])
             };
             p.required_stats = vec![Stat::SnapshotsInstalled, Stat::SnapshotsSent];
             p.explanation = "explicit-state exploration over compaction points, lost/duplicated/stale/reordered MsgSnapshot, status reports, follower crash around the install; install / ignore / fast-forward post-conditions and the leader's send condition as pre/post relations".into();
